@@ -33,6 +33,8 @@ pub(crate) mod c11;
 pub(crate) mod c20;
 #[path = "/verif/harness/d/c18.rs"]
 pub(crate) mod c18;
+#[path = "/verif/harness/d/c04.rs"]
+pub(crate) mod c04;
 
 #[cfg(osrg_rustybgp_verif_shuttle)]
 #[path = "/verif/harness/s/c18s.rs"]
@@ -76,6 +78,7 @@ pub(crate) fn enable_active_connect(peer: &mut Peer, ch: mpsc::UnboundedSender<T
 
 fn plan(property: &str) -> BatchPlan {
     match property {
+        "C04" => BatchPlan { quick_runs: 3_000, thorough_runs: 300_000 },
         _ => BatchPlan { quick_runs: 20_000, thorough_runs: 2_000_000 },
     }
 }
@@ -96,6 +99,7 @@ pub(crate) fn verif_main(args: &[String]) -> i32 {
     let c10 = c10::GrHelper;
     let c13 = c13::RtrClient;
     let c07 = c07::FsmWire;
+    let c07b = c07::SilenceInEveryState;
     let c16 = c16::Admission;
     let c09 = c09::ExportRules;
     let c05 = c05::MalformedUpdates;
@@ -103,6 +107,7 @@ pub(crate) fn verif_main(args: &[String]) -> i32 {
     let c20 = c20::KernelSync;
     let c18 = c18::Monitoring { prop: "C18" };
     let c19 = c18::Monitoring { prop: "C19" };
-    let checks: Vec<&dyn Check> = vec![&c08, &c01, &c10, &c13, &c07, &c16, &c09, &c05, &c11, &c20, &c18, &c19];
+    let c04 = c04::BulkExport;
+    let checks: Vec<&dyn Check> = vec![&c08, &c01, &c10, &c13, &c07, &c07b, &c16, &c09, &c05, &c11, &c20, &c18, &c19, &c04];
     vcore::main_with(&checks, &plan, args)
 }
